@@ -2178,3 +2178,107 @@ Lemma trigger_retval_format_legacy_refuted :
   read_args true w (a20_payload ++ next_rec) = Some (a20_payload, next_rec) /\
   read_args true (merge_opts (reader_opts_legacy name_x)) (a20_payload ++ next_rec) <> Some (a20_payload, next_rec).
 Proof. vm_compute. repeat split; try reflexivity. discriminate. Qed.
+
+(* ------------------------------------------------------------------ format e:<enum> *)
+Lemma find_exact_val : forall t v e, find_exact t v = Some e -> In e t /\ snd e = v.
+Proof.
+  intros t v e H. unfold find_exact in H. apply find_some in H. destruct H as (Hin & E).
+  apply Z.eqb_eq in E. split; assumption.
+Qed.
+
+Definition zsum (es : list (list N * Z)) : Z := fold_right Z.add 0%Z (map snd es).
+Lemma zsum_app : forall a b, zsum (a ++ b) = (zsum a + zsum b)%Z.
+Proof. intros a b. unfold zsum. induction a as [|x r IH]; cbn; [reflexivity|]. rewrite map_app in *. cbn in *. lia. Qed.
+
+Lemma wrap_long_ex : forall z, exists k, wrap_long z = (z + k * 18446744073709551616)%Z.
+Proof.
+  intro z. unfold wrap_long. change (2 ^ 64)%Z with 18446744073709551616%Z. change (2 ^ 63)%Z with 9223372036854775808%Z.
+  cbv zeta. pose proof (Z.div_mod z 18446744073709551616 ltac:(lia)) as D.
+  destruct (z mod 18446744073709551616 <? 9223372036854775808)%Z.
+  - exists (- (z / 18446744073709551616))%Z. lia.
+  - exists (- (z / 18446744073709551616) - 1)%Z. lia.
+Qed.
+
+Lemma or_loop_sum : forall t v acc es r,
+  or_loop t v acc = (es, r) ->
+  (exists k, zsum es + r = zsum acc + v + k * 18446744073709551616)%Z /\ (forall e, In e es -> In e acc \/ In e t).
+Proof.
+  induction t as [|e t IH]; intros v acc es r H.
+  - cbn in H. inversion H; subst. split; [exists 0%Z; lia|]. intros x Hx. left. exact Hx.
+  - cbn [or_loop] in H.
+    destruct (snd e <=? v)%Z eqn:Le.
+    + destruct (wrap_long_ex (v - snd e)) as (k0 & W).
+      assert (Hs : zsum (acc ++ [e]) = (zsum acc + snd e)%Z) by (rewrite zsum_app; unfold zsum at 2; cbn; lia).
+      destruct (wrap_long (v - snd e) =? 0)%Z eqn:Z0.
+      * inversion H; subst. split.
+        -- exists k0. rewrite Hs. lia.
+        -- intros x Hx. apply in_app_or in Hx. destruct Hx as [Hx|[Hx|[]]]; [left; exact Hx|right; left; exact Hx].
+      * apply IH in H. destruct H as ((k & S) & I). split.
+        -- exists (k + k0)%Z. rewrite S, Hs. lia.
+        -- intros x Hx. destruct (I x Hx) as [Hy|Hy]; [|right; right; exact Hy].
+           apply in_app_or in Hy. destruct Hy as [Hy|[Hy|[]]]; [left; exact Hy|right; left; exact Hy].
+    + destruct (v =? 0)%Z eqn:Z0.
+      * inversion H; subst. split; [exists 0%Z; lia|]. intros x Hx. left. exact Hx.
+      * apply IH in H. destruct H as (S & I). split; [exact S|].
+        intros x Hx. destruct (I x Hx) as [Hy|Hy]; [left; exact Hy|right; right; exact Hy].
+Qed.
+
+Definition names_of (d : edisp) : list (list N * Z) :=
+  match d with EName e => [e] | EOr es _ => es | ENum _ => [] end.
+Definition eqm64 (a b : Z) : Prop := exists k, (a = b + k * 18446744073709551616)%Z.
+
+(* for every table and every recorded value: the names shown are enumerators of the table, and the display stands
+   for the value - as the 64-bit number recorded (modulo 2^64: the arithmetic of a C long), or, for a value
+   2^31 .. 2^32-1, as the int in its low half *)
+Theorem enum_display_denotes : forall t v,
+  let d := conv_enum t v in
+  (forall e, In e (names_of d) -> In e t) /\
+  (eqm64 (denote d) v \/ (int_range v = true /\ denote d = v - 2 ^ 32)%Z).
+Proof.
+  intros t v. cbv zeta. unfold conv_enum.
+  destruct (find_exact t v) as [e|] eqn:F1.
+  - apply find_exact_val in F1. destruct F1 as (Hin & E). split.
+    + intros x [Hx|[]]. subst x. exact Hin.
+    + left. exists 0%Z. cbn. lia.
+  - assert (Hloop : forall es r, or_loop t v [] = (es, r) ->
+      (forall e, In e (names_of (match es with [] => ENum r | _ => EOr es r end)) -> In e t) /\
+      eqm64 (denote (match es with [] => ENum r | _ => EOr es r end)) v).
+    { intros es r L. apply or_loop_sum in L. destruct L as ((k & S) & I). unfold zsum in S. cbn in S.
+      destruct es as [|e0 es'].
+      - split; [intros x []|]. exists k. cbn in *. lia.
+      - split.
+        + intros x Hx. destruct (I x Hx) as [[]|Hy]. exact Hy.
+        + exists k. cbn [denote]. lia. }
+    destruct (int_range v) eqn:R.
+    + destruct (find_exact t (v - 2 ^ 32)) as [e|] eqn:F2.
+      * apply find_exact_val in F2. destruct F2 as (Hin & E). split.
+        -- intros x [Hx|[]]. subst x. exact Hin.
+        -- right. split; [reflexivity|exact E].
+      * destruct (or_loop t v []) as [es r] eqn:L. destruct (Hloop es r eq_refl) as (A & B).
+        destruct es; (split; [exact A|left; exact B]).
+    + destruct (or_loop t v []) as [es r] eqn:L. destruct (Hloop es r eq_refl) as (A & B).
+      destruct es; (split; [exact A|left; exact B]).
+Qed.
+
+(* enum mode { M_WRITE = 2, M_SYNC = 0x80000000 }, enum span { SPAN_NONE = 0, SPAN_4G = 2^32 }, enum sgn { NEG = -3, POS = 5 } *)
+Definition mode_t : etable := [([77; 95; 83; 89; 78; 67], 0x80000000%Z); ([77; 95; 87; 82; 73; 84; 69], 2%Z)].
+Definition span_t : etable := [([83; 80; 65; 78; 95; 52; 71], 0x100000000%Z); ([83; 80; 65; 78; 95; 78; 79; 78; 69], 0%Z)].
+Definition sgn_t : etable := [([80; 79; 83], 5%Z); ([78; 69; 71], (-3)%Z)].
+(* a display that cuts the recorded value to an int first (seed C09-9): M_SYNC is shown as 0xffffffff80000000,
+   M_SYNC|M_WRITE as 0xffffffff80000002, SPAN_4G as SPAN_NONE: none of them stands for the value passed *)
+Lemma enum_int_cast_refuted :
+  enum_text (conv_enum mode_t 0x80000000) = [77; 95; 83; 89; 78; 67] /\
+  enum_text (conv_enum mode_t 0x80000002) = [77; 95; 83; 89; 78; 67; 124; 77; 95; 87; 82; 73; 84; 69] /\
+  enum_text (conv_enum span_t 0x100000000) = [83; 80; 65; 78; 95; 52; 71] /\
+  enum_text (conv_enum_int mode_t 0x80000000) = [48; 120; 102; 102; 102; 102; 102; 102; 102; 102; 56; 48; 48; 48; 48; 48; 48; 48] /\
+  denote (conv_enum_int mode_t 0x80000002) <> 0x80000002%Z /\
+  enum_text (conv_enum_int span_t 0x100000000) = [83; 80; 65; 78; 95; 78; 79; 78; 69] /\
+  denote (conv_enum_int span_t 0x100000000) <> 0x100000000%Z.
+Proof. vm_compute. repeat split; try reflexivity; discriminate. Qed.
+(* repaired in /repo: f(NEG), the int -3 passed in edi (recorded as 0xfffffffd), was shown as POS|NEG+0xfffffffb *)
+Lemma enum_negative_legacy_refuted :
+  enum_text (conv_enum sgn_t 0xfffffffd) = [78; 69; 71] /\ denote (conv_enum sgn_t 0xfffffffd) = (-3)%Z /\
+  enum_text (conv_enum_legacy sgn_t 0xfffffffd) =
+    [80; 79; 83; 124; 78; 69; 71; 43; 48; 120; 102; 102; 102; 102; 102; 102; 102; 98] /\
+  names_of (conv_enum_legacy sgn_t 0xfffffffd) = sgn_t.
+Proof. vm_compute. repeat split; reflexivity. Qed.
